@@ -78,10 +78,18 @@ BlankDriftingProps(x, w) ==
 BlankDriftingItems(x, w) == [x EXCEPT !.project.items = BlankPairs(@, w.project.items)]
 HasDrifting(w) == HasDriftingNote(w) \/ BlankDriftingProps(w, w) # w \/ BlankDriftingItems(w, w) # w
 
-DevIds == <<"F-C02a", "F-C02d", "F-C02e", "F-C02j", "F-C15a">>
+\* F-C02h: a STRING default that spells true or false (any case) is rendered bare and comes back as a boolean
+\* (pinned by test_dbml/test_column.py::test_default_to_str["False"-"false"])
+BoolSpelling(v) == CASE v \in {"true", "True", "TRUE"} -> "true" [] v \in {"false", "False", "FALSE"} -> "false" [] OTHER -> ""
+BoolCol(col) == IF col.default.k = "str" /\ BoolSpelling(col.default.v) # ""
+                THEN [col EXCEPT !.default = [k |-> "bool", v |-> BoolSpelling(col.default.v)]] ELSE col
+Boolify(m) == [m EXCEPT !.tables = [t \in DOMAIN @ |-> [@[t] EXCEPT !.cols = [c \in DOMAIN @ |-> BoolCol(@[c])]]]]
+
+DevIds == <<"F-C02a", "F-C02d", "F-C02e", "F-C02h", "F-C02j", "F-C15a">>
 AllDevs == {DevIds[i] : i \in DOMAIN DevIds}
 ApplyWant(S, w, m) ==
-  LET w1 == IF "F-C02a" \in S THEN DropFalsy(w) ELSE w
+  LET w0 == IF "F-C02a" \in S THEN DropFalsy(w) ELSE w     \* decided on the ORIGINAL value: the string 'False' is truthy, it is rendered
+      w1 == IF "F-C02h" \in S THEN Boolify(w0) ELSE w0
       w2 == IF "F-C02e" \in S THEN [w1 EXCEPT !.refs = MaskComments(Reparsed(m)).refs] ELSE w1
       w3 == IF "F-C02d" \in S THEN BlankDriftingNotes(w2, w) ELSE w2
       w4 == IF "F-C15a" \in S THEN BlankDriftingProps(w3, w) ELSE w3
@@ -105,6 +113,7 @@ Verdict(e) ==
         ELSE IF fits = {} THEN ModelDiff(ApplyWant(AllDevs, want, m), ApplyGot(AllDevs, got, want))
         ELSE JoinIds(CHOOSE S \in fits : \A T \in fits : Cardinality(S) <= Cardinality(T))
       fixpoint == IF e.s1.kind = "error" THEN "" ELSE IF e.fix THEN ""
+                  ELSE IF Boolify(want) # want THEN "dev:F-C02h"      \* true -> True, false -> (dropped) on the next cycle
                   ELSE IF HasDriftingNote(want) THEN "dev:F-C02d"
                   ELSE IF BlankDriftingProps(want, want) # want THEN "dev:F-C15a"
                   ELSE IF BlankDriftingItems(want, want) # want THEN "dev:F-C02j"
